@@ -95,6 +95,12 @@ theorem history_independent_borda (base : Int) (h : List RankedProfile) (c : Ran
   history_independent_of_inv (bordaStep base) (fun _ => True) bordaInit trivial (fun _ _ _ => trivial)
     (fun s c _ => bordaStep_out_indep base s bordaInit c) h c
 
+/-- after any history the converter computes the stateless specification (scores derived from the profile at hand) -/
+theorem borda_output_is_spec (base : Int) (h : List RankedProfile) (c : RankedProfile) :
+    lastOut (bordaStep base) bordaInit (h ++ [c]) = some (positionalSpec base c) := by
+  rw [lastOut_append]
+  rfl
+
 /-- the scorer state after a history is the one set for the LAST profile: `n_candidates` = number of distinct
     candidates ranked in it, `_scores` = the generated score list for that number -/
 theorem borda_state_after (base : Int) (h : List RankedProfile) (c : RankedProfile) :
